@@ -13,6 +13,7 @@
        [k |-> "obj", name, ns, fields, hasbase, base]     fields: <<[n, t, min, max]>>; ancestors' fields first
        [k |-> "arr", of]                                  wrapped array: container + items named after the item type
        [k |-> "attr", of]                                 XML attribute of the enclosing element
+       [k |-> "any"]                                      AnyXml: the value <<"xml", name>> is a tree carried as it is (TreeToks)
    Values: <<"nil">> | <<"leaf", text>> | <<"obj", cls, <<v1, ...>>>> (one per flat field; cls = runtime class name)
            | <<"seq", <<items>>>> (array, or a repeated member)
 
@@ -45,6 +46,13 @@ ItemNs(t, tns)   == IF t.of.k = "obj" THEN t.of.ns ELSE IF t.itemns = "" THEN tn
 \* the item name is the item type's type name (given with the type: `item`)
 ItemName(t) == t.item
 
+\* the trees AnyXml members carry (SpyneSignatures.T10): a type marker inside a tree denotes the namespace its prefix is bound to
+XsdNs == "http://www.w3.org/2001/XMLSchema"
+TreeToks(n) ==
+  CASE n = "plain"     -> << S("", "note"), <<"T", "hi">>, E >>
+    [] n = "typed_int" -> << S("urn:bag", "v"), <<"X", XsdNs, "int">>, <<"T", "5">>, E >>
+    [] n = "typed_bag" -> << S("urn:bag", "props"), S("urn:bag", "v"), <<"X", XsdNs, "string">>, <<"T", "a">>, E,
+                             S("urn:bag", "v"), <<"X", XsdNs, "int">>, <<"T", "5">>, E, E >>
 RECURSIVE EncElem(_, _, _, _, _, _), EncFields(_, _, _, _, _, _), EncItems(_, _, _, _, _, _, _), Attrs(_, _, _)
 \* attributes of a complex value: the attr-kind fields with a value, in field order
 Attrs(fl, vals, k) ==
@@ -74,6 +82,7 @@ Runtime(t, v) == IF v[2] = t.name \/ ~("subs" \in DOMAIN t) THEN t
 EncElem(t, v, ns, name, tns, poly) ==
   IF v = Nil THEN << S(ns, name), <<"NIL">>, E >>
   ELSE IF t.k = "prim" THEN << S(ns, name) >> \o (IF v[2] = "" THEN <<>> ELSE << <<"T", v[2]>> >>) \o << E >>
+  ELSE IF t.k = "any" THEN << S(ns, name) >> \o TreeToks(v[2]) \o << E >>
   ELSE IF t.k = "obj" THEN
        LET rt == IF poly THEN Runtime(t, v) ELSE t
            fl == FlatFields(rt)
@@ -123,7 +132,7 @@ MinLen(a, b) == IF a < b THEN a ELSE b
 Norm(t, v) ==
   IF v = Nil THEN Nil
   ELSE IF t.k = "prim" THEN (IF v[2] = "" /\ t.p \in {"ByteArray"} THEN Nil ELSE v)
-  ELSE IF t.k = "attr" \/ v[1] = "leaf" THEN v          \* (a leaf where a structure is declared: an error marker of the driver)
+  ELSE IF t.k \in {"attr", "any"} \/ v[1] = "leaf" THEN v          \* (a leaf where a structure is declared: an error marker of the driver)
   ELSE IF t.k = "arr" THEN <<"seq", NormSeq(t.of, v[2])>>
   ELSE LET rt == Runtime(t, v)                          \* the value's own class when it is a registered subclass
            fl == FlatFields(rt)
